@@ -38,3 +38,16 @@ for iid, kind, status, rules, pids, edit, exp in rows:
     else:
         print("| %s | %s | %s | %s | %s |" % (iid, kind, ", ".join(rules) or "—", ", ".join(pids) or "—", edit.replace("|", "/")))
 json.dump([{"id": r[0], "kind": r[1], "status": r[2], "rules": r[3], "checks": r[4]} for r in rows], open("/tmp/matrix.json", "w"), indent=1)
+
+# cross-checks printed to stderr: every catalogued defect is reported by the checks of the properties it was written for;
+# every behaviour-preserving variant is silent and keeps every anchor
+cat = json.load(open("/verif/mutants/catalogue.json"))
+bad = 0
+for iid, kind, status, rules, pids, edit, exp in rows:
+    if kind.startswith("benign") and (pids or status != "analysed"):
+        print("BENIGN ALARM", iid, status, rules, pids, file=sys.stderr); bad += 1
+    if kind == "defect":
+        miss = [p for p in (exp or []) if p and p not in pids]
+        if not pids or miss:
+            print("DEFECT NOT REPORTED", iid, "expected", exp, "reported", pids, file=sys.stderr); bad += 1
+print("matrix: %d rows, %d problems" % (len(rows), bad), file=sys.stderr)
